@@ -333,6 +333,8 @@ func vExec(op vOp, sock **vSock) (line string) {
 		return "dec " + hx(percentDecodeString(unhx(op.S)))
 	case "ip":
 		return fmt.Sprintf("ip %v", net.ParseIP(unhx(op.S)) != nil)
+	case "wf":
+		return fmt.Sprintf("wf %v", vWF(unhx(op.M), unhx(op.ID)))
 	case "res":
 		id := did.DID{Method: unhx(op.M), ID: unhx(op.ID)}
 		oldStrict, oldTr := client.StrictMode, client.DefaultCachingTransport
@@ -364,6 +366,63 @@ func vExec(op vOp, sock **vSock) (line string) {
 		return fmt.Sprintf("res reqs=[%s] out=%s", strings.Join(*reqs, ","), out)
 	}
 	return "bad-op:" + op.Op
+}
+
+// vWF: the round-trip grammar (Lean: Nuts.C18.wfDID), written independently in Go; the correspondence compares the two
+// on every generated identifier, the oracle demands "rt same" for every identifier inside it.
+func vWF(m, id string) bool {
+	if m != "web" {
+		return false
+	}
+	isName := func(c byte) bool {
+		return c >= 'a' && c <= 'z' || c >= 'A' && c <= 'Z' || c >= '0' && c <= '9' || c == '.' || c == '-' || c == '_'
+	}
+	upHex := func(c byte) int {
+		switch {
+		case c >= '0' && c <= '9':
+			return int(c - '0')
+		case c >= 'A' && c <= 'F':
+			return int(c-'A') + 10
+		}
+		return -1
+	}
+	parts := strings.Split(id, ":")
+	h := parts[0]
+	n := 0
+	for n < len(h) && isName(h[n]) {
+		n++
+	}
+	if n == 0 || net.ParseIP(h[:n]) != nil {
+		return false
+	}
+	if tl := h[n:]; tl != "" {
+		if !strings.HasPrefix(tl, "%3A") {
+			return false
+		}
+		for _, c := range []byte(tl[3:]) {
+			if c < '0' || c > '9' {
+				return false
+			}
+		}
+	}
+	for _, s := range parts[1:] {
+		if s == "" {
+			return false
+		}
+		for i := 0; i < len(s); {
+			if s[i] == '%' {
+				if i+2 >= len(s) || upHex(s[i+1]) < 0 || upHex(s[i+2]) < 0 || strings.IndexByte(vSet14, byte(upHex(s[i+1])*16+upHex(s[i+2]))) < 0 {
+					return false
+				}
+				i += 3
+			} else if isName(s[i]) {
+				i++
+			} else {
+				return false
+			}
+		}
+	}
+	return len(parts) == 1 || parts[len(parts)-1] != "did.json"
 }
 
 // ---------- generators
@@ -625,7 +684,8 @@ func vGenerate(seed int64, thorough bool) []vOp {
 		if err != nil {
 			panic(err)
 		}
-		ops = append(ops, vOp{Op: "d2u", M: hx(d.Method), ID: hx(d.ID), Tag: "fixed"}, vOp{Op: "rt", M: hx(d.Method), ID: hx(d.ID), Tag: "fixed"})
+		ops = append(ops, vOp{Op: "d2u", M: hx(d.Method), ID: hx(d.ID), Tag: "fixed"}, vOp{Op: "rt", M: hx(d.Method), ID: hx(d.ID), WF: vWF(d.Method, d.ID), Tag: "fixed"},
+			vOp{Op: "wf", M: hx(d.Method), ID: hx(d.ID), Tag: "fixed"})
 	}
 	for _, s := range []string{"https://localhost/.well-known/did.json", "https://localhost/alice+and+bob/path/did.json", "https://localhost:3000/alice", "https://nodeA/iam/5/", "https://host/%C5%A1", "https://host/%E2%82%AC:"} {
 		ops = append(ops, vOp{Op: "u2d", S: hx(s), Tag: "fixed"}, vOp{Op: "up", S: hx(s), Tag: "fixed"})
@@ -646,7 +706,9 @@ func vGenerate(seed int64, thorough bool) []vOp {
 			wf = false
 			tag = "raw-struct"
 		}
-		ops = append(ops, vOp{Op: "d2u", M: hx(m), ID: hx(id), Tag: tag}, vOp{Op: "rt", M: hx(m), ID: hx(id), WF: wf, Tag: tag})
+		_ = wf // the generator's own bookkeeping; the claim is made for the recognised grammar
+		ops = append(ops, vOp{Op: "d2u", M: hx(m), ID: hx(id), Tag: tag}, vOp{Op: "rt", M: hx(m), ID: hx(id), WF: vWF(m, id), Tag: tag},
+			vOp{Op: "wf", M: hx(m), ID: hx(id), Tag: tag})
 		if i%3 == 0 {
 			s := "did:" + m + ":" + id
 			if g.chance(0.2) {
